@@ -161,7 +161,9 @@ def transferOut (s : St) (to n : Nat) : Option St :=
   else some { s with ab := setN (setN s.ab 3 (getN s.ab 3 - n)) to (getN (setN s.ab 3 (getN s.ab 3 - n)) to + n) }
 
 mutual
-/-- one message of the borrower's callback; the borrower is account 3 -/
+/-- one message of the borrower's callback; the borrower is account 3.
+    `.loan amount cb` is `FlashLoan{amount, msg}` sent by the borrower contract whose callback is
+    `cb`: guard, counter + 1, funds out, the callback's messages, then `after_trade`. -/
 def run : St → Act → Option St
   | s, .pay n => payIn s 3 n
   | s, .deposit n => deposit s 3 n n
@@ -169,7 +171,16 @@ def run : St → Act → Option St
   | s, .collect => collect s
   | s, .transferOut to n => transferOut s to n
   | _, .fail => none
-  | s, .loan n cb => loanFrom s n cb
+  | s, .loan amount cb =>
+    if !s.flOn then none else
+    if s.ctr ≠ 0 then none else
+    if s.ctr + 1 > 4294967295 then none else
+    match payOut { s with ctr := s.ctr + 1 } 3 amount with
+    | none => none
+    | some s1 =>
+      match runs s1 cb with
+      | none => none
+      | some s2 => afterTrade s2 s.bal amount
 /-- the messages of a callback, in order; the first failure reverts everything -/
 def runs : St → List Act → Option St
   | s, [] => some s
@@ -177,20 +188,10 @@ def runs : St → List Act → Option St
     match run s a with
     | none => none
     | some s' => runs s' as
-/-- `FlashLoan{amount, msg}` sent by the borrower contract (account 3) whose callback is `cb` -/
-def loanFrom : St → Nat → List Act → Option St
-  | s, amount, cb =>
-    if !s.flOn then none else
-    if s.ctr ≠ 0 then none else
-    if s.ctr + 1 > 4294967295 then none else
-    let old := s.bal
-    match payOut { s with ctr := s.ctr + 1 } 3 amount with
-    | none => none
-    | some s1 =>
-      match runs s1 cb with
-      | none => none
-      | some s2 => afterTrade s2 old amount
 end
+
+/-- a flash loan of `amount` taken by the borrower contract with callback tree `cb` -/
+def loanFrom (s : St) (amount : Nat) (cb : List Act) : Option St := run s (.loan amount cb)
 
 /-- top-level operations (each is one transaction) -/
 inductive Op where
